@@ -95,7 +95,7 @@ def main(ctx):
     HBAD = ctx.pick(["type", "order"], BADKINDS)
 
     # ------------------------------------------------------------------ world 1
-    def make_world(dk):
+    def make_world(dk, spelling="plain"):
         def menu(m, h):
             ops = []
             if h is None:
@@ -106,6 +106,11 @@ def main(ctx):
                                 ops.append(("create", delim, hk, k))
                     for k in KS:
                         ops.append(("append", k))
+                    if m["exists"] and not m["empty"]:
+                        # the delim keyword of an append / re-open of an EXISTING file: the header's delimiter wins
+                        ops.append(("append", 1, ","))
+                        ops.append(("append", 1, "\t"))
+                        ops.append(("open", "r+", ","))
                     if m["exists"]:
                         for kind in BADKINDS:
                             ops.append(("append_bad", kind))
@@ -131,7 +136,7 @@ def main(ctx):
             with open(fn, "rb") as f:
                 return f.read()
 
-        def check_file(hist, rec, fn, m):
+        def check_file(hist, rec, fn, m, fnr=None):
             """no handle open, file exists and holds data: compare with the model"""
             try:
                 data, hdr = sfile.read(fn, header=True)
@@ -150,7 +155,7 @@ def main(ctx):
                 return rec.fail(hist, "user header %r, given at creation %r" % (user, m["hdr"]))
             if (hdr.get("_DELIM") or None) != m["delim"]:
                 return rec.fail(hist, "_DELIM %r, file created with %r" % (hdr.get("_DELIM"), m["delim"]))
-            raw = filebytes(fn)
+            raw = filebytes(fnr or fn)
             pos = raw.find(b"\nEND\n\n")
             if pos < 0:
                 return rec.fail(hist, "no END line in the file")
@@ -165,9 +170,15 @@ def main(ctx):
             return True
 
         def execute(hist, rec):
-            fn = os.path.join(rec.tmp, "c03_%s.rec" % dk)
-            if os.path.exists(fn):
-                os.unlink(fn)
+            fnr = os.path.join(rec.tmp, "c03_%s.rec" % dk)
+            if os.path.exists(fnr):
+                os.unlink(fnr)
+            # the path as the caller spells it: plain, through an environment variable, or through ~
+            # (both spellings are documented as expanded; the oracle always looks at the real path)
+            os.environ["C03DIR"] = rec.tmp
+            if spelling == "home":
+                os.environ["HOME"] = rec.tmp
+            fn = {"plain": fnr, "env": "$C03DIR/c03_%s.rec" % dk, "home": "~/c03_%s.rec" % dk}[spelling]
             m = dict(exists=False, delim=None, hdr=None, n=0, empty=False)
             h = None       # model of the open handle: dict(mode, first)
             sf = None
@@ -185,7 +196,10 @@ def main(ctx):
                         if m["exists"] and m["empty"]:
                             # an empty file (opened 'w', nothing written) is outside the statement
                             return None
-                        sfile.write(fn, chunk(dk, start, nk), append=True)
+                        if len(op) > 2:
+                            sfile.write(fn, chunk(dk, start, nk), append=True, delim=op[2])
+                        else:
+                            sfile.write(fn, chunk(dk, start, nk), append=True)
                         if not m["exists"]:
                             m.update(exists=True, delim=None, hdr=None, n=nk)
                         else:
@@ -194,7 +208,7 @@ def main(ctx):
                         kind = op[1]
                         if m["empty"]:
                             return None
-                        before = filebytes(fn)
+                        before = filebytes(fnr)
                         c = bad_chunk(dk, kind, m["n"])
                         ok_for_text = kind == "order" and m["delim"] is not None
                         try:
@@ -212,7 +226,7 @@ def main(ctx):
                                 rec.fail(hist, "incompatible append (%s) to a %s file was accepted"
                                          % (kind, "binary" if m["delim"] is None else "text"))
                                 return None
-                            if filebytes(fn) != before:
+                            if filebytes(fnr) != before:
                                 rec.fail(hist, "rejected append (%s) changed the file's bytes" % kind)
                                 return None
                     elif k == "open":
@@ -257,13 +271,13 @@ def main(ctx):
                         h = None
                     elif k == "read":
                         # a read in the middle of a history: whatever it caches becomes part of the state
-                        if not last and check_file(hist[:i + 1], rec, fn, m) is not True:
+                        if not last and check_file(hist[:i + 1], rec, fn, m, fnr) is not True:
                             return None
                     else:
                         raise ValueError(op)
                     m["justread"] = k == "read"
                     if last and h is None and m["exists"] and not m["empty"]:
-                        if check_file(hist, rec, fn, m) is not True:
+                        if check_file(hist, rec, fn, m, fnr) is not True:
                             return None
             except Exception as e:
                 import traceback
@@ -282,7 +296,7 @@ def main(ctx):
                         pass
             # when a handle was open we closed it for cleanup only: the bytes now on disk are
             # a function of the history, so they can be part of the key as well
-            raw = filebytes(fn)
+            raw = filebytes(fnr)
             key = (hashlib.sha1(raw).hexdigest() if raw is not None else None, hstate,
                    m["exists"], m["delim"], repr(m["hdr"]), m["n"], m["empty"],
                    None if h is None else (h["mode"], h["first"]))
@@ -296,6 +310,11 @@ def main(ctx):
         ctx.histories("sfile-world(%s)" % dk, [()], pristine(make_world(dk)), depth=depth, nodedup_depth=2,
                       bounds=dict(depth=depth, nmax=NMAX, delims=[repr(d) for d in DELIMS], dtype=str(DTS[dk]),
                                   bad_kinds=BADKINDS, headers=len(HDRS)))
+
+    # the same world with the path spelled through an environment variable / through ~
+    for sp in ctx.pick(["env"], ["env", "home"]):
+        ctx.histories("sfile-world(A,path:%s)" % sp, [()], pristine(make_world("A", sp)), depth=ctx.pick(3, 5), nodedup_depth=2,
+                      bounds=dict(path_spelling={"env": "$C03DIR/name", "home": "~/name"}[sp]))
 
     # seeded from non-initial states: pre-existing files written through other routes
     seeds = [
